@@ -342,7 +342,7 @@ pub fn time_cap(tier: Tier) -> Duration {
             return Duration::from_secs(n);
         }
     }
-    Duration::from_secs(tier.pick(60, 1500))
+    Duration::from_secs(tier.pick(60, 900))
 }
 
 /// Worker entry: runs cases k ≡ index (mod of), starting at `start_k`, skipping `skip`.
